@@ -80,6 +80,9 @@ def run(an: Analysis, rep):
     rep.run(r053, an, rep)
     from .common import SharedRules
     from . import c03
+    from . import c02, c10
+    rep.run(c10.format_rules, an, SharedRules(rep, "R05.L", "line-table format constants (shared with C10's R10.*): 'the same line for every instruction' after re-encoding"))
+    rep.run(c02.jump_rules, an, SharedRules(rep, "R05.J", "jump / closure operand arithmetic of the encoder (shared with C02's R02.3/R02.4): the re-encoded instructions resolve to the same operands"))
     rep.run(c03.r037, an, SharedRules(rep, "R05.R", "re-layout after normalization (shared with C03's R03.7): with the width overrides stripped, jumps still land on their targets"))
 
 
